@@ -29,7 +29,7 @@ PROP = {
     "C10": ["encoder", "cache", "arena"],
     "C11": ["encoder", "cache"],
     "C12": ["search", "encoder", "cache"],
-    "C13": ["search", "cache"],
+    "C13": ["search", "cache", "encoder"],   # the encoder is where metadata cached by an earlier solve short-cuts a later one
     "C14": ["search", "trail"],
     "C15": ["amo", "encoder"],
     "C16": ["snapshot", "mapping"],
